@@ -72,6 +72,53 @@ def run(ctx):
                 ctx.ob(R1, f'{side}·{m}←{fld}', bool(ok), f'{side}: argument of csv builder `{m}` must flow from FileFormat::Csv.{fld}',
                        [site(g, c.bb)])
 
+    R4 = 'C20-R4'
+    ctx.rule(R4, 'HEADER is symmetric: the reader skips one record when `header` is set (csv::ReaderBuilder::has_headers); the writer '
+                 'emits its rows with Writer::write_record, for which csv::WriterBuilder::has_headers has no effect (it only concerns '
+                 'Writer::serialize), so the writer must itself emit one extra record under the header flag -- a write_record '
+                 'control-dependent on FileFormat::Csv.header -- or serialize its rows')
+    if ok_anchor:
+        wg = prog.group(W)
+        uses_serialize = any(re.search(r'csv::Writer::<.*>::serialize$', c.name or '') for g in wg for c in g.calls)
+        recs = [(g, c) for g in wg for c in g.calls if re.search(r'csv::Writer::<.*>::write_record$', c.name or '')]
+        rd_skips = 'has_headers' in builder_calls(prog, R, 'Reader')
+        cond = []
+        for g in wg:
+            for i, bl in enumerate(g.blocks):
+                t = bl['term']
+                if t['k'] != 'switch' or t['discr']['k'] == 'const':
+                    continue
+                if flows_from(g, t['discr']['pl']['l'], lambda k, p, b_: k == 'assign' and any(
+                        f == f'{FMT}::header' for pl in __pl(p) for f in pl_fields(pl)), depth=8):
+                    yes = [t['otherwise']] if t.get('otherwise') is not None else []
+                    no = [tgt for v, tgt in t['targets'] if v == '0']
+                    only_yes = g.reachable_from(yes, avoid=set(no) | {i}) - g.reachable_from(no, avoid={i})
+                    cond += [c for gg, c in recs if gg is g and c.bb in only_yes]
+        if ctx.anchor(R4, 'writer: write_record / reader: has_headers', (recs or uses_serialize) and rd_skips):
+            ctx.ob(R4, 'writer·header-record', uses_serialize or bool(cond),
+                   f'reader skips a record under `header`; writer: serialize used: {uses_serialize}; write_record sites under the header '
+                   f'flag: {[site(c.body, c.bb) for c in cond]}', [site(g, c.bb) for g, c in recs[:2]],
+                   what='COPY TO (HEADER) writes no header record while COPY FROM (HEADER) skips the first record: the round trip '
+                        'loses the first row')
+
+    R5 = 'C20-R5'
+    ctx.rule(R5, 'the export replaces the target file: it is opened with File::create, or with OpenOptions that set truncate(true) or '
+                 'create_new(true); a file opened for overwrite without truncation keeps the tail of a longer previous export')
+    if ctx.anchor(R5, W, W in prog.bodies):
+        wg = prog.group(W)
+        opens = [c for g in wg for c in g.calls if re.search(r'std::fs::File::(create|create_new|options|open)$|std::fs::OpenOptions::open$|'
+                                                              r'tokio::fs::OpenOptions::open$|tokio::fs::File::create$', c.name or '')]
+        if ctx.anchor(R5, 'writer: file open', opens):
+            create = [c for c in opens if re.search(r'File::(create|create_new)$', c.name or '')]
+            oo = {m: c for g in wg for c in g.calls for m in re.findall(r'OpenOptions::(truncate|create_new|append|write|create)$', c.name or '')}
+            def const_true(c):
+                return len(c.args) > 1 and c.args[1]['k'] == 'const' and 'true' in c.args[1].get('v', '')
+            trunc = any(m in oo and const_true(oo[m]) for m in ('truncate', 'create_new'))
+            ctx.ob(R5, 'writer·target-truncated', bool(create) or trunc,
+                   f'file opened through {[c.name for c in opens]}; OpenOptions methods: {sorted(oo)}', [site(c.body, c.bb) for c in opens],
+                   what='COPY TO opens its target for writing without truncating it: exporting a shorter table to the same path leaves '
+                        'rows of the previous export at the end of the file')
+
     R2 = 'C20-R2'
     ctx.rule(R2, 'NULL token agreement: the string ArrayImpl::get_to_string emits for NULL equals the string '
                  'ArrayBuilderImpl::push_str maps to NULL')
